@@ -393,7 +393,7 @@ func Generate(r *rng.R, maxOps int) *History {
 	weights := map[string]int{
 		"EndpointSlice": 6, "Service": 5, "Secret": 3, "ReferenceGrant": 3, "Namespace": 3, "GatewayClass": 3,
 		"Gateway": 3, "HTTPRoute": 4, "GRPCRoute": 2, "TLSRoute": 2, "BackendTLSPolicy": 2, "ConfigMap": 2,
-		"ClientSettingsPolicy": 2, "UpstreamSettingsPolicy": 1, "NginxProxy": 1,
+		"ClientSettingsPolicy": 4, "UpstreamSettingsPolicy": 3, "NginxProxy": 2,
 	}
 	pickPresent := func() client.Object {
 		var keys []p.Key
